@@ -5,7 +5,20 @@
 (* synchronisation of a consistent vector, global dot product / squared norm  *)
 (* of consistent vectors, and the distributed matrix-vector product with      *)
 (* local (type-0) matrices summing to the undecomposed operator.              *)
-EXTENDS Synch, Json
+(*                                                                           *)
+(* Every rank numbers its dofs locally by a renumbering kind ren[r] (module  *)
+(* Renum: identity, reversal, rotation, ... up to kind RENK), so the mirrors *)
+(* (local positions of the shared dofs in the common buffer order) are NOT   *)
+(* monotone in general.  All per-rank data of a case (vectors, matrices,     *)
+(* expected results) are listed in the LOCAL numbering of the rank; the      *)
+(* mirrors are emitted with the case.  Besides the all-identity numbering    *)
+(* only numberings with at least one non-monotone mirror are emitted (the    *)
+(* others are relabellings of an emitted case).                              *)
+EXTENDS Synch, Json, Renum
+
+CONSTANT RENK            \* largest renumbering kind (0: ascending local numbering only)
+VARIABLE ren             \* rank -> renumbering kind
+gvars == <<vars, ren>>
 
 Owned == UNION {dofs[r] : r \in Ranks}
 X(d) == 2 * d + 1            \* a consistent (type-1) global vector
@@ -15,10 +28,16 @@ ALoc(r, d, e) == (r + 2) * d - e + (IF d = e THEN 4 ELSE 0)
 AGlob(d, e) == SumOver({r \in Ranks : d \in dofs[r] /\ e \in dofs[r]}, [r \in Ranks |-> ALoc(r, d, e)])
 AX(d) == SumOver(Owned, [e \in Dofs |-> AGlob(d, e) * X(e)])
 
-SortedDofs(r) == LET S == dofs[r] IN [i \in 1..Cardinality(S) |-> CHOOSE d \in S : Cardinality({e \in S : e < d}) = i - 1]
+\* the local numbering of rank r (sequence of global dofs) and its mirror for neighbour s
+SortedDofs(r) == RnOrder(dofs[r], ren[r])
+Mir(r, s) == IF s # r /\ Shared(r, s) # {} THEN RnMirror(SortedDofs(r), Shared(r, s)) ELSE <<>>
+NonMono == \E r \in Ranks : \E s \in Nbrs(r) : ~RnMonotone(Mir(r, s))
+AllIdentity == \A r \in Ranks : ren[r] = 0
 Case ==
   [nr |-> NR, nd |-> ND,
    dofs |-> [r \in Ranks |-> SortedDofs(r)],
+   ren |-> [r \in Ranks |-> ren[r]], nonmono |-> NonMono,
+   mir |-> [r \in Ranks |-> [s \in Ranks |-> Mir(r, s)]],
    v0 |-> [r \in Ranks |-> [i \in 1..Cardinality(dofs[r]) |-> v0[r][SortedDofs(r)[i]]]],
    sync0 |-> [r \in Ranks |-> [i \in 1..Cardinality(dofs[r]) |-> Sync0Of(v0, dofs)[r][SortedDofs(r)[i]]]],
    count |-> [r \in Ranks |-> [i \in 1..Cardinality(dofs[r]) |-> Cardinality(Sharers(SortedDofs(r)[i]))]],
@@ -30,9 +49,16 @@ Case ==
    aloc |-> [r \in Ranks |-> [i \in 1..Cardinality(dofs[r]) |-> [j \in 1..Cardinality(dofs[r]) |-> ALoc(r, SortedDofs(r)[i], SortedDofs(r)[j])]]],
    ax |-> [r \in Ranks |-> [i \in 1..Cardinality(dofs[r]) |-> AX(SortedDofs(r)[i])]]]
 
-GenNext == UNCHANGED vars
-GenSpec == Init /\ [][GenNext]_vars
+GenInit ==
+  /\ Init
+  /\ ren \in [Ranks -> 0..RENK]
+  /\ \A r \in Ranks : RnCanon(dofs[r], ren[r])
+  /\ (AllIdentity \/ NonMono)
+GenNext == UNCHANGED gvars
+GenSpec == GenInit /\ [][GenNext]_gvars
 \* every rank holds at least one dof (a patch is never empty)
 NonEmpty == \A r \in Ranks : dofs[r] # {}
 Emit == NonEmpty => PrintT(ToJson(Case))
+\* the local numberings are permutations of the patches and both sides of every mirror pair address the same global dof
+LawRenum == \A r \in Ranks : RnIsPerm(SortedDofs(r), dofs[r]) /\ \A s \in Nbrs(r) : RnMirrorsAgree(SortedDofs(r), SortedDofs(s), Shared(r, s))
 =============================================================================
